@@ -87,6 +87,7 @@ TAGS = {
     "chfwd.begin": {"C10", "C09", "C03"},
     "sub.spawned": {"C10", "C09", "C13"},
     "stop.join": {"C04", "C15", "C13", "C11", "C01"},
+    "stop.closed": {"C04", "C15", "C13", "C11", "C01"},
 }
 
 
